@@ -1,7 +1,6 @@
 (* C09 - automatic language detection never guesses; tokens and statuses follow one rule. *)
 From PS Require Import Base StrDefs ApiDefs SpecDefs SpecApi StrProofs LangData ApiLemmas RefineProofs ApiTheorems.
-From PS Require Import LangDefs CTieLang CTieStr CTiePhrase.
-From PS.Gen Require CFuns.
+From PS Require Import LangDefs.
 From PS.Gen Require Import Consts Langs.
 Local Open Scope N_scope.
 
